@@ -80,11 +80,15 @@ func (p *StreamPool) VerifQueued() (maxPages, queuedPages int, oldestHead time.T
 	defer p.mu.RUnlock()
 	for _, c := range p.conns {
 		for _, h := range []*halfconnection{&c.c2s, &c.s2c} {
-			if h.pages > maxPages {
-				maxPages = h.pages
-			}
+			// counted by walking the queue, not taken from the h.pages counter
+			// the limit logic itself relies on
+			n := 0
 			for pg := h.first; pg != nil; pg = pg.next {
-				queuedPages++
+				n++
+			}
+			queuedPages += n
+			if n > maxPages {
+				maxPages = n
 			}
 			if h.first != nil && !h.closed && (!any || h.first.seen.Before(oldestHead)) {
 				oldestHead, any = h.first.seen, true
